@@ -465,7 +465,8 @@ func runQuery(in input, c *hx.Case) error {
 			}
 			var rowT []string
 			ok := true
-			for len(rowT) <= rowCap && rs.Next() {
+			passed := 0 // bytes of rows handed to the model: past the byte cap the model has truncated already
+			for len(rowT) <= rowCap && passed <= byteCap && rs.Next() {
 				vals := make([]interface{}, len(cols))
 				ptrs := make([]interface{}, len(cols))
 				for i := range vals {
@@ -478,10 +479,18 @@ func runQuery(in input, c *hx.Case) error {
 				cs := make([]string, len(cols))
 				for i, v := range vals {
 					cs[i] = cellTerm(v, cellCap)
+					switch t := v.(type) {
+					case string:
+						passed += min(len(t), cellCap) + 1
+					case []byte:
+						passed += min(len(t), cellCap) + 1
+					default:
+						passed += 2
+					}
 				}
 				rowT = append(rowT, hx.L(cs))
 			}
-			tail := len(rowT) <= rowCap && rs.Err() != nil
+			tail := len(rowT) <= rowCap && passed <= byteCap && rs.Err() != nil
 			refNote = fmt.Sprint(rs.Err())
 			rs.Close()
 			if ok {
